@@ -567,6 +567,14 @@ func workerMain(env *Env, spec specT) {
 			batch = append(batch, pend{i, sp.Gen(i)})
 			if len(batch) >= allocBatch {
 				runBatch()
+				if stop.Load() { // wall budget used up: report where this shard stopped
+					flush(i + spec.Of)
+					emit(recT{T: "capped", Space: si, Next: i + spec.Of})
+					if profiling {
+						pprof.StopCPUProfile()
+					}
+					os.Exit(0)
+				}
 			}
 			sinceFlush++
 			if sinceFlush >= flushEvery {
